@@ -17,7 +17,8 @@ INI path (`iniValue interp splitMl raw`, `interp` = configparser's interpolation
 * `raw_nul_counterexample`        a raw NUL between quotes is recognised as quoted but cannot be evaluated
 Merge (any option table):
 * `cli_overrides_file`, `append_in_order`, `append_cli_in_order`, `unknown_key_filtered`,
-  `unknown_key_not_applied`, `file_eq_cli`, `file_eq_cli_flag`, `file_eq_cli_count`
+  `unknown_key_not_applied`, `file_eq_cli`, `file_eq_cli_flag`, `file_eq_cli_count`, `later_file_wins`
+Lists in INI files: `evalList_listLit`, `ini_list_roundtrip_partial` (again "no `%`")
 -/
 namespace Config
 
@@ -1027,5 +1028,259 @@ instance (T : List Opt) : Decidable (NoSepFlag T) := by unfold NoSepFlag; infer_
 
 /-- the hypotheses of the merge theorems are satisfiable -/
 example : FlagsDisjoint exTable ∧ KeysDisjoint exTable ∧ NoSepFlag exTable := by decide +kernel
+
+/-- several files: an option set by a file read earlier in the loop (= later in `default_config_files`:
+`reversed(config_streams)`) keeps that value whatever the files merged after it say — `pydoctor.ini` beats
+`setup.cfg` beats `pyproject.toml`, and no list is accumulated across files -/
+theorem later_file_wins (T : List Opt) (hF : FlagsDisjoint T) (hS : NoSepFlag T) (o : Opt) (ho : o ∈ T)
+    (cli : List Arg) (f1 f2 : List (Str × FileVal)) (args2 args : List Arg)
+    (h2 : mergeFile T cli f2 = .ok args2) (hon : alreadyOn args2 o.flags = true)
+    (h : mergeFiles T cli [f1, f2] = .ok args) :
+    effective o args = effective o args2 := by
+  have h' : mergeFile T args2 f1 = .ok args := by
+    simpa [mergeFiles, h2] using h
+  exact cli_overrides_file T hF hS o ho args2 f1 args hon h'
+
+example :
+    (match mergeFiles exTable [] [[("privacy".toList, .list ["toml".toList])], [("privacy".toList, .list ["cfg".toList])],
+        [("privacy".toList, .list ["ini1".toList, "ini2".toList])]] with
+     | .ok a => effective exPriv a | .error _ => .unmodelled) = .many ["ini1".toList, "ini2".toList] := by
+  decide +kernel
+
+/-! ## Lists written as a Python list display of quoted strings (INI `key = ["a", "b"]`) -/
+
+theorem scanLiteral_quote1_tail (q : Char) (hq : IsQ q) (s tail : Str) (ht : tail.head? ≠ some q) :
+    scanLiteral (quote1 q s ++ tail) = some (s.flatMap (esc1 q), tail) := by
+  have hqc : isQuoteChar q = true := by rcases hq with rfl | rfl <;> decide
+  have hscan := scanSingle_quote q hq s tail
+  have hhead := head_flatMap_esc1 q hq s
+  unfold quote1
+  simp only [List.cons_append, List.append_assoc]
+  rw [scanLiteral.eq_def]
+  simp only [hqc, if_true]
+  generalize hb : s.flatMap (esc1 q) = body at *
+  cases body with
+  | nil =>
+    simp only [List.nil_append] at hscan ⊢
+    cases tail with
+    | nil => simpa using hscan
+    | cons t ts =>
+      have ht' : t ≠ q := by simpa using ht
+      simpa [ht'] using hscan
+  | cons b bs =>
+    have hb' : b ≠ q := by simpa using hhead
+    cases bs with
+    | nil => simpa [hb'] using hscan
+    | cons b2 bs2 => simpa [hb'] using hscan
+
+/-- the text after `[` of a list display of one-line quoted strings separated by `, ` -/
+def itemsTail (q : Char) : List Str → Str
+  | [] => [']']
+  | [s] => quote1 q s ++ [']']
+  | s :: more => quote1 q s ++ (',' :: ' ' :: itemsTail q more)
+
+def listLit (q : Char) (ss : List Str) : Str := '[' :: itemsTail q ss
+
+theorem quote1_head (q : Char) (s : Str) : ∃ r, quote1 q s = q :: r := ⟨_, rfl⟩
+
+/-- one item followed by `,` or `]` -/
+theorem evalItems_item (q : Char) (hq : IsQ q) (fuel : Nat) (s tail : Str) (c : Char) (hc : c = ',' ∨ c = ']') :
+    evalItems (fuel + 2) false (quote1 q s ++ c :: tail) = (evalItems (fuel + 1) true (c :: tail)).cons s := by
+  have hqws : isListWs q = false := by rcases hq with rfl | rfl <;> decide
+  have hqb : q ≠ ']' := by rcases hq with rfl | rfl <;> decide
+  have hqc : isQuoteChar q = true := by rcases hq with rfl | rfl <;> decide
+  have hcq : (c :: tail).head? ≠ some q := by
+    rcases hc with rfl | rfl <;> rcases hq with rfl | rfl <;> simp
+  have hcws : isListWs c = false := by rcases hc with rfl | rfl <;> decide
+  have hcqc : isQuoteChar c = false := by rcases hc with rfl | rfl <;> decide
+  have hscan := scanLiteral_quote1_tail q hq s (c :: tail) hcq
+  have hdec := decodeEsc_flatMap (esc1 q) (decodeEsc_esc1 q · hq) s
+  obtain ⟨r, hr⟩ := quote1_head q s
+  rw [hr] at hscan ⊢
+  simp only [List.cons_append] at hscan
+  rw [evalItems.eq_def]
+  simp only [List.cons_append, List.dropWhile_cons, hqws, Bool.false_eq_true, if_false, hqb, hqc, if_true]
+  rw [hscan]
+  simp only [hdec]
+  rw [evalItems.more.eq_def]
+  simp [hcws, hcqc]
+
+theorem evalItems_comma (fuel : Nat) (rest : Str) :
+    evalItems (fuel + 1) true (',' :: ' ' :: rest) = evalItems fuel false (' ' :: rest) := by
+  rw [evalItems.eq_def]
+  simp [isListWs, isInlineWs]
+
+theorem evalItems_close (fuel : Nat) (after : Bool) : evalItems (fuel + 1) after [']'] = .ok [] := by
+  rw [evalItems.eq_def]
+  simp [isListWs, isInlineWs]
+
+theorem evalItems_space (q : Char) (_hq : IsQ q) (fuel : Nat) (s rest : Str) :
+    evalItems fuel false (' ' :: (quote1 q s ++ rest)) = evalItems fuel false (quote1 q s ++ rest) := by
+  cases fuel with
+  | zero => simp [evalItems]
+  | succ f =>
+    conv => lhs; rw [evalItems.eq_def]
+    conv => rhs; rw [evalItems.eq_def]
+    simp [quote1, List.dropWhile_cons, isListWs, isInlineWs]
+
+theorem evalItems_itemsTail (q : Char) (hq : IsQ q) (ss : List Str) (fuel : Nat) (hf : 2 * ss.length + 1 ≤ fuel) :
+    evalItems fuel false (itemsTail q ss) = .ok ss := by
+  induction ss generalizing fuel with
+  | nil =>
+    obtain ⟨f, rfl⟩ : ∃ f, fuel = f + 1 := ⟨fuel - 1, by simp at hf; omega⟩
+    exact evalItems_close f false
+  | cons s more ih =>
+    simp only [List.length_cons] at hf
+    obtain ⟨f, rfl⟩ : ∃ f, fuel = f + 3 := ⟨fuel - 3, by omega⟩
+    cases more with
+    | nil =>
+      simp only [itemsTail]
+      rw [evalItems_item q hq (f + 1) s [] ']' (Or.inr rfl), evalItems_close]; rfl
+    | cons s2 more2 =>
+      have hstep : itemsTail q (s :: s2 :: more2) = quote1 q s ++ (',' :: ' ' :: itemsTail q (s2 :: more2)) := rfl
+      rw [hstep, evalItems_item q hq (f + 1) s _ ',' (Or.inl rfl), evalItems_comma]
+      have hnext : ∃ rest, itemsTail q (s2 :: more2) = quote1 q s2 ++ rest := by
+        cases more2 with
+        | nil => exact ⟨[']'], rfl⟩
+        | cons s3 m3 => exact ⟨_, rfl⟩
+      obtain ⟨rest, hrest⟩ := hnext
+      rw [hrest, evalItems_space q hq, ← hrest]
+      rw [ih (f + 1) (by simp only [List.length_cons] at hf ⊢; omega)]; rfl
+
+theorem mem_itemsTail (q : Char) (hq : IsQ q) (ss : List Str) (x : Char) (hx : x ∈ itemsTail q ss) :
+    x ≠ '\r' ∧ x ≠ Char.ofNat 0 := by
+  induction ss with
+  | nil => simp [itemsTail] at hx; subst hx; decide
+  | cons s more ih =>
+    cases more with
+    | nil =>
+      simp only [itemsTail, List.mem_append, List.mem_cons, List.mem_nil_iff, or_false] at hx
+      rcases hx with hx | rfl
+      · exact mem_quote1 q hq s x hx
+      · decide
+    | cons s2 m2 =>
+      have hstep : itemsTail q (s :: s2 :: m2) = quote1 q s ++ (',' :: ' ' :: itemsTail q (s2 :: m2)) := rfl
+      rw [hstep] at hx
+      simp only [List.mem_append, List.mem_cons] at hx
+      rcases hx with hx | rfl | rfl | hx
+      · exact mem_quote1 q hq s x hx
+      · decide
+      · decide
+      · exact ih hx
+
+theorem length_itemsTail (q : Char) (ss : List Str) : 2 * ss.length + 1 ≤ (itemsTail q ss).length + 1 := by
+  induction ss with
+  | nil => simp [itemsTail]
+  | cons s more ih =>
+    cases more with
+    | nil => simp [itemsTail, quote1]
+    | cons s2 m2 =>
+      have hstep : itemsTail q (s :: s2 :: m2) = quote1 q s ++ (',' :: ' ' :: itemsTail q (s2 :: m2)) := rfl
+      rw [hstep]
+      simp only [List.length_append, List.length_cons, quote1] at ih ⊢
+      omega
+
+/-- `literal_eval` reads a list display of quoted strings back item by item, in order -/
+theorem evalList_listLit (q : Char) (hq : IsQ q) (ss : List Str) : evalList (listLit q ss) = .ok ss := by
+  have hmem : ∀ x ∈ listLit q ss, x ≠ '\r' ∧ x ≠ Char.ofNat 0 := by
+    intro x hx
+    simp only [listLit, List.mem_cons] at hx
+    rcases hx with rfl | hx
+    · decide
+    · exact mem_itemsTail q hq ss x hx
+  have hcr : '\r' ∉ listLit q ss := fun h => (hmem _ h).1 rfl
+  have hnul : (listLit q ss).contains (Char.ofNat 0) = false := by
+    simp only [List.contains_eq_mem, decide_eq_false_iff_not]
+    exact fun h => (hmem _ h).2 rfl
+  unfold evalList
+  simp only [translateNewlines_id _ hcr, hnul]
+  simp only [listLit]
+  exact evalItems_itemsTail q hq ss _ (by
+    have := length_itemsTail q ss
+    simp only [List.length_cons]; omega)
+
+theorem not_mem_itemsTail_percent (q : Char) (hq : IsQ q) (ss : List Str) (hs : ∀ s ∈ ss, '%' ∉ s) :
+    '%' ∉ itemsTail q ss := by
+  induction ss with
+  | nil => simp [itemsTail]
+  | cons s more ih =>
+    have h1 := not_mem_quote1_percent q hq s (hs s (by simp))
+    cases more with
+    | nil => simp only [itemsTail, List.mem_append, List.mem_cons, List.mem_nil_iff, or_false, not_or]
+             exact ⟨h1, by decide⟩
+    | cons s2 m2 =>
+      have hstep : itemsTail q (s :: s2 :: m2) = quote1 q s ++ (',' :: ' ' :: itemsTail q (s2 :: m2)) := rfl
+      rw [hstep]
+      simp only [List.mem_append, List.mem_cons, not_or]
+      exact ⟨h1, by decide, by decide, ih (fun s' hs' => hs s' (by simp [hs']))⟩
+
+theorem getLast?_itemsTail (q : Char) (ss : List Str) : (itemsTail q ss).getLast? = some ']' := by
+  induction ss with
+  | nil => rfl
+  | cons s more ih =>
+    cases more with
+    | nil => simp [itemsTail]
+    | cons s2 m2 =>
+      have hstep : itemsTail q (s :: s2 :: m2) = quote1 q s ++ (',' :: ' ' :: itemsTail q (s2 :: m2)) := rfl
+      rw [hstep, List.getLast?_append]
+      have : (',' :: ' ' :: itemsTail q (s2 :: m2)).getLast? = some ']' := by
+        rw [List.getLast?_cons_cons, List.getLast?_cons]
+        simp [ih]
+      simp [this]
+
+/-- INI path, list option: `key = ["a", "b", …]` with `%`-free items is read back as that list, in order
+(the `%` hypothesis is needed for the same reason as in `ini_quote_roundtrip_partial`) -/
+theorem ini_list_roundtrip_partial (interp : Str → InterpR) (hi : PercentFreeId interp) (splitMl : Bool)
+    (q : Char) (hq : IsQ q) (ss : List Str) (hs : ∀ s ∈ ss, '%' ∉ s) :
+    iniValue interp splitMl (listLit q ss) = .list ss := by
+  have hp : '%' ∉ listLit q ss := by
+    simp only [listLit, List.mem_cons, not_or]
+    exact ⟨by decide, not_mem_itemsTail_percent q hq ss hs⟩
+  have hlast : (listLit q ss).getLast? = some ']' := by
+    simp only [listLit]
+    have := getLast?_itemsTail q ss
+    cases hit : itemsTail q ss with
+    | nil => rw [hit] at this; simp at this
+    | cons a b => rw [List.getLast?_cons_cons, ← hit]; exact this
+  unfold iniValue
+  rw [hi _ hp]
+  simp only [evalList_listLit q hq ss, hlast]
+  simp [listLit]
+
+example : iniValue basicInterp true (listLit '"' ["it's".toList, "a \"b\"".toList, [], "x\ny".toList]) =
+    .list ["it's".toList, "a \"b\"".toList, [], "x\ny".toList] := by decide +kernel
+example : listLit '\'' ["a".toList, "b'c".toList] = "['a', 'b\\'c']".toList := by decide +kernel
+example : iniValue basicInterp true (listLit '"' ["100%".toList]) = .error .interpolation := by decide +kernel
+
+/-! ## The table hypotheses as the executable check the harness runs on the live parser -/
+
+theorem flagsDisjointB_iff (T : List Opt) : flagsDisjointB T = true ↔ FlagsDisjoint T := by
+  simp only [flagsDisjointB, FlagsDisjoint, List.all_eq_true, Bool.or_eq_true, Bool.not_eq_true',
+    List.contains_eq_mem, decide_eq_false_iff_not, beq_iff_eq]
+  constructor
+  · intro h a ha b hb f hfa hfb
+    rcases h a ha b hb f hfa with h1 | h1
+    · exact absurd hfb h1
+    · exact h1
+  · intro h a ha b hb f hfa
+    by_cases hfb : f ∈ b.flags
+    · exact Or.inr (h a ha b hb f hfa hfb)
+    · exact Or.inl hfb
+
+theorem keysDisjointB_iff (T : List Opt) : keysDisjointB T = true ↔ KeysDisjoint T := by
+  simp only [keysDisjointB, KeysDisjoint, List.all_eq_true, Bool.or_eq_true, Bool.not_eq_true',
+    List.contains_eq_mem, decide_eq_false_iff_not, beq_iff_eq]
+  constructor
+  · intro h a ha b hb f hfa hfb
+    rcases h a ha b hb f hfa with h1 | h1
+    · exact absurd hfb h1
+    · exact h1
+  · intro h a ha b hb f hfa
+    by_cases hfb : f ∈ possibleKeys b
+    · exact Or.inr (h a ha b hb f hfa hfb)
+    · exact Or.inl hfb
+
+theorem noSepFlagB_iff (T : List Opt) : noSepFlagB T = true ↔ NoSepFlag T := by
+  simp [noSepFlagB, NoSepFlag]
 
 end Config
